@@ -211,6 +211,48 @@ def run(ctx: Ctx):
     ok = (hidden_json == hidden_csv) or not setters
     ctx.ob("R18.2", f"row filter is_hidden: JSON honours={hidden_json}, CSV honours={hidden_csv}, writers of True={setters}", tj, ok,
            "the asymmetric filter can never be set" if ok else "a hidden row is dropped from JSON but kept in CSV", key="R18.2|ReportTable|is_hidden")
+    # the same rows: no rendering drops a body row by what the row contains (round 8, C18-13: JSON skipped records whose cells are
+    # all empty, CSV kept them -- the arrays stop lining up). Tests between the walk over body_lines and the emission of a row,
+    # other than the is_hidden filter judged above, must be the same in both renderings.
+    def row_filters(fn):
+        from ..order import local_resolver
+        res_ = local_resolver(fn.node)
+
+        def over_body(it):
+            return "self.body_lines" in norm(it) or any("self.body_lines" in norm(d) for nm in ast.walk(it)
+                                                        if isinstance(nm, ast.Name) for d in res_(nm))
+        out, n_emit = set(), 0
+        for l in own_nodes(fn):
+            if isinstance(l, ast.For) and over_body(l.iter):
+                for x in ast.walk(l):
+                    if isinstance(x, ast.If) and "is_hidden" not in norm(x.test) and x is not l:
+                        inner_for = any(isinstance(p_, ast.For) and p_ is not l for p_ in _chain(x, l))
+                        emits = any(isinstance(c_, ast.Call) and isinstance(c_.func, ast.Attribute) and c_.func.attr in ("append", "writerow", "extend")
+                                    and not any(isinstance(p_, ast.For) and p_ is not l for p_ in _chain(c_, l))
+                                    for b_ in x.body + x.orelse for c_ in ast.walk(b_))
+                        skips = any(isinstance(c_, (ast.Continue, ast.Break)) for b_ in x.body + x.orelse for c_ in ast.walk(b_))
+                        if not inner_for and (emits or skips):
+                            out.add(norm(x.test))
+                n_emit += 1
+            elif isinstance(l, ast.comprehension) and over_body(l.iter):
+                n_emit += 1
+                out |= {norm(c_) for c_ in l.ifs if "is_hidden" not in norm(c_)}
+        return out, n_emit
+
+    def _chain(x, stop):
+        p_ = getattr(x, "_parent", None)
+        while p_ is not None and p_ is not stop:
+            yield p_
+            p_ = getattr(p_, "_parent", None)
+
+    (fj, nj), (fc, nc) = row_filters(tj), row_filters(tc)
+    if not nj or not nc:
+        raise AnchorMissing("ReportTable.to_json / to_csv: walk over self.body_lines not found")
+    ok = fj == fc
+    ctx.ob("R18.2", f"row selection by content: JSON {sorted(fj)}, CSV {sorted(fc)}", tj, ok,
+           "neither rendering drops a row for what it contains" if ok else
+           f"one rendering emits a body row only under {sorted(fj ^ fc)}: the other keeps it, the row counts differ and later rows no longer line up",
+           key="R18.2|ReportTable|row selection")
     # column names and header come from the same header cells
     hdr_json, hdr_csv = iterates(tj, "header_lines"), iterates(tc, "header_lines")
     ctx.ob("R18.2", "column names come from the header line in both renderings", tj, hdr_json and hdr_csv,
@@ -254,6 +296,12 @@ def run(ctx: Ctx):
         raise AnchorMissing("generate_intermediate_format: construction of self.content not found")
     for a in builds:
         stale = [norm(i_.test) for (i_, b_) in _eifs18(a, gif.node) if "self.content" in norm(i_.test)]
+        # ... nor is it skipped by an earlier exit taken on what the previous generation left behind (round 8, C18-14)
+        kept = {norm(x.targets[0]) for x in own_nodes(gif) if isinstance(x, ast.Assign) and len(x.targets) == 1
+                and isinstance(x.targets[0], ast.Name) and "self.content" in norm(x.value)} | {"self.content"}
+        stale += [norm(i_.test) for i_ in own_nodes(gif) if isinstance(i_, ast.If) and i_.lineno < a.lineno
+                  and any(k_ in norm(i_.test) for k_ in kept)
+                  and any(isinstance(x, ast.Return) for b_ in i_.body + i_.orelse for x in ast.walk(b_))]
         ctx.ob("R18.7", f"{gif.qual}: {norm(a)[:50]} does not depend on the previous content", (gif, a), not stale,
                "a fresh generator (and table) for every generation" if not stale else
                f"the generator is rebuilt only under {stale}: a second generation of the same report reuses the old table and appends to it, "
